@@ -7,7 +7,11 @@
    field.  Stacks are written bottom first (slot n = nth n).
 
    Abstraction: the interpreter's cached registers (`ip`, `active_chunk`, `active_module`,
-   `unsafe_fiber`) are not state of the model; the instruction pointer that the code saves into the
+   `unsafe_fiber`) are not state of the model: the register set {ip, active_chunk, active_module} is a
+   function of the running fiber's top frame as long as EVERY switch site (load_fiber, unload_fiber,
+   unwind_stack; return_impl through unload_fiber) reloads all three through `load_frame` - regenerated
+   side condition `switch_sites_restore_same_registers` (YVGen.FiberArms) and the multi-module family of
+   the check; the instruction pointer that the code saves into the
    top frame at a switch is passed as the argument `ip`.  The trace tie checks the register discipline
    (per-fiber pc continuity, fiber_ptr_ok) on the real binary.
 
